@@ -5,6 +5,7 @@ import ZCV.Codec
 import ZCV.Model.Conv
 import ZCV.Model.Schemaless
 import ZCV.Spec.Grammar
+import ZCV.Spec.Registry
 /-! Line-protocol driver: one request per line, one answer per line. Imports Spec + Model + Gen only. -/
 open ZCV ZCV.SExp ZCV.Codec ZCV.Cfg
 
@@ -51,6 +52,12 @@ partial def encSec : Sec → SExp
   | .mk t n kvs ss => .list [.atom "sec", .str t, ofOpt .str n,
       .list (kvs.map fun (k, vs) => .list [.str k, ofStrs vs]), .list (ss.map encSec)]
 
+def encConv : Except ConvErr Val → SExp
+  | .ok v => .list [.atom "ok", encVal v]
+  | .error .valueError => .list [.atom "err", .atom "ValueError"]
+  | .error .typeError => .list [.atom "err", .atom "TypeError"]
+  | .error (.other n) => .list [.atom "err", .str n]
+
 structure DState where
   defs : List SExp := []
   env : List SExp := []
@@ -79,11 +86,7 @@ def handle (st : DState) : SExp → DState × SExp
       | _, _, _, _, _, _ => .list [.atom "bad-request", .atom "load"])
   -- (conv "datatype" "text") → (ok val) | (err kind)
   | .list [.atom "conv", .str dt, .str s] =>
-    (st, match stockVal dt s with
-      | .ok v => .list [.atom "ok", encVal v]
-      | .error .valueError => .list [.atom "err", .atom "ValueError"]
-      | .error .typeError => .list [.atom "err", .atom "TypeError"]
-      | .error (.other n) => .list [.atom "err", .str n])
+    (st, .list [encConv (stockVal dt s), match DTSpec.byName dt s with | some r => encConv r | none => .atom "nospec"])
   -- (classify "line") → (model-shape spec-shape)
   | .list [.atom "classify", .str l] =>
     (st, .list [encLineShape (lineShape (strip l)), encShape (Grammar.classify l)])
